@@ -73,10 +73,27 @@ func encMsg(sender, seq int) []byte {
 }
 func msgID(sender, seq int) int { return sender<<28 | seq&(1<<28-1) }
 func decMsg(b []byte) (id int, ok bool) {
-	if len(b) != 5 || b[0]&0xF0 != 0xB0 || b[1] > 127 || b[2] > 127 || b[3] > 127 || b[4] > 127 {
+	if len(b) < 5 || b[0]&0xF0 != 0xB0 || b[1] > 127 || b[2] > 127 || b[3] > 127 || b[4] > 127 {
 		return 0, false
 	}
-	return int(b[0]&15)<<28 | int(b[1])<<21 | int(b[2])<<14 | int(b[3])<<7 | int(b[4]), true
+	id = int(b[0]&15)<<28 | int(b[1])<<21 | int(b[2])<<14 | int(b[3])<<7 | int(b[4])
+	// a dump: the id followed by a padding that is a function of the id
+	for k, x := range b[5:] {
+		if x != byte(id+k)&127 {
+			return 0, false
+		}
+	}
+	return id, true
+}
+
+// encDump is encMsg followed by n bytes of padding (a bulk dump: one line of several KiB for the helper).
+func encDump(sender, seq, n int) []byte {
+	b := encMsg(sender, seq)
+	id := msgID(sender, seq)
+	for k := 0; k < n; k++ {
+		b = append(b, byte(id+k)&127)
+	}
+	return b
 }
 
 const (
@@ -193,11 +210,21 @@ func runMidicatHistory(c *mon.Ctx, r *mon.Rand, idx int64) {
 	defer func() { atomic.StoreInt32(&pollStop, 1); pollWG.Wait() }()
 
 	seqOf := make([]int32, 16) // per sender sequence numbers
+	dumps := idx%2 == 1
+	desc["senders_mix_in_dumps_of_2_to_8_KiB"] = dumps
+	var dumpsSent int64
+	defer func() { c.Count("mc_dumps_sent_by_concurrent_senders", atomic.LoadInt64(&dumpsSent)) }()
 	send := func(sender, port, window int) sendEv {
 		seq := int(atomic.AddInt32(&seqOf[sender], 1))
 		ev := sendEv{id: msgID(sender, seq), sender: sender, port: port, window: window}
+		msg := encMsg(sender, seq)
+		if dumps && sender != senderProbe && seq%7 == sender%7 {
+			// every seventh message of a sender is a dump of 2..8 KiB (a line of 4..16 K characters)
+			msg = encDump(sender, seq, []int{2041, 2042, 2043, 3000, 4096, 8000}[seq/7%6])
+			atomic.AddInt64(&dumpsSent, 1)
+		}
 		ev.call = h.tick()
-		ev.err = outs[port].Send(encMsg(sender, seq))
+		ev.err = outs[port].Send(msg)
 		ev.ret = h.tick()
 		h.mu.Lock()
 		h.sends = append(h.sends, ev)
